@@ -198,3 +198,21 @@ def ok_cached_copy(flags):
 
 def ok_constant_lookup(flag):
     return FLAG_NAMES.get(flag, 'unknown')
+
+
+def hist_ext_payload(ins):
+    values = ins.get_stored_values()
+    del values[0]
+    return values
+
+
+def ok_ext_fresh(ins):
+    values = ins.get_fresh_values()
+    values.pop(0)
+    return values
+
+
+def ok_ext_copied(ins):
+    values = list(ins.get_stored_values())
+    values.reverse()
+    return values + [ins.get_size()]
